@@ -190,6 +190,10 @@ func PrimaryPackage(gocmd, path string, files []string) (*PkgInfo, error) {
 
 	setDefault(info)
 	setAliases(info)
+	// aliases are only known now, so check them against the targets here
+	if err := checkDupes(info, info.Imports); err != nil {
+		return nil, err
+	}
 	return info, nil
 }
 
@@ -205,6 +209,7 @@ func checkDupes(info *PkgInfo, imports []*Import) error {
 		}
 	}
 	for alias, f := range info.Aliases {
+		alias = strings.ToLower(alias)
 		if len(funcs[alias]) != 0 {
 			var ids []string
 			for _, f := range funcs[alias] {
